@@ -715,7 +715,9 @@ with call_stmt (fuel : nat) (E : env) (M : memory) (fn : string) (args : list ex
     else if is_intrinsic fn then v <~ eval f E M (ECall fn args) ;; Done (Some v, M)
     else
       (* argument values where they can be evaluated (reference arguments of aggregate type need not be) *)
-      let avs := map (fun a => match (if is_pure a then eval f E M a else Fail "") with Done v => Some v | _ => None end) args in
+      (* (also of arguments that are not "pure" in the sense of is_pure, e.g. a constructor holding
+         `c ? x : DefaultConstructible()`: the value is only used to choose among C++ overloads) *)
+      let avs := map (fun a => match eval f E M a with Done v => Some v | _ => None end) args in
       match find_overload fn avs with
       | None => Fail ("not modelled: unknown function " ++ fn)
       | Some d =>
